@@ -135,6 +135,23 @@ CLAIMED["C14"] = (
     "DESIGN.md §3 C14",
 )
 
+CLAIMED["C15"] = (
+    "proptest differential: an interpreter written from the bytecode format documentation vs the VM interpreter on the same tape; index-bound and marker predicates",
+    "Generated tapes at register budgets small enough to force Load/Store are serialised and executed by an independent interpreter that knows only the "
+    "documented format (markers, opcode table from iter_ops(), 0xFF immediates, Mem direction flags); outputs must equal the VM interpreter bit-for-bit, "
+    "all indices must respect reg_count()/mem_count(), and no operand may use the reserved register. Exploration.",
+    "The GPU consumer (tape_interpreter.wgsl) is not executed here; arithmetic of the reference interpreter comes from refsem.",
+    "DESIGN.md §3 C15",
+)
+CLAIMED["C16"] = (
+    "proptest metamorphic + closed-form reference: T(s)(p) = s(T^-1 p) with independently computed inverse maps, closed-form inside tests for primitives, boolean laws for CSG, named constants",
+    "Generated nests of all 26 library structs with generated parameters; each node is checked against its documented geometry at generated points: "
+    "primitives by closed-form inside tests, transforms by the metamorphic relation T(s)(p) = s(T^-1 p) with the inverse map computed independently "
+    "in f64, CSG by the boolean combination of the arguments' own signs, Blend by its documented formula. Exploration of parameter space.",
+    "Tolerance 2e-4 x size x Lipschitz bound; RevolveY's axis-position sign convention is not fixed by its documentation, either is accepted.",
+    "DESIGN.md §3 C16",
+)
+
 NOT_YET = {
 }
 
